@@ -38,7 +38,9 @@ Section PollProofs.
     - destruct (sig_closed s); [split; auto|]. split; cbn; auto.
     - destruct (sig_closed s); [split; auto|]. split; cbn; auto.
     - split; cbn; auto. rewrite <- Hi, <- !app_assoc. reflexivity.
-    - split; cbn; auto.
+    - split; cbn; auto. rewrite app_nil_r, <- Hi, !app_length, app_assoc.
+      rewrite firstn_app, firstn_all2 by (rewrite app_length; lia).
+      replace (_ - _) with 0 by (rewrite app_length; lia). cbn. now rewrite app_nil_r.
   Qed.
 
   Lemma PI_arrive_all : forall ms s, PI s -> PI (arrive_all s ms).
@@ -52,13 +54,18 @@ Section PollProofs.
   Lemma PI_sig_step : forall s : pstate, PI s ->
     match sig_step s with inl s' => PI s' | inr s' => PI s' end.
   Proof.
-    intros s [Hw Hc Ht Hi]. unfold sig_step. cbn.
-    destruct (termsig s) eqn:Et.
-    - split; cbn; auto; try discriminate.
-    - destruct (winch s) eqn:Ew.
-      + split; cbn; auto; try discriminate.
-        rewrite inputs_app. cbn. rewrite app_nil_r. exact Hi.
-      + split; cbn; auto; try discriminate; try (intro H; rewrite (Hc H) in Ew; discriminate).
+    intros s [Hw Hc Ht Hi]. unfold sig_step.
+    assert (H2 : PI (if winch s
+                     then push (mkP (io s) (events s) (pipe s) false false false (sig_closed s) (inq s)
+                                    (hup s) (saved s) (cur s) (g_owed_wake s) (g_owed_winch s)
+                                    (g_arrived s) (g_returned s)) EvResize
+                     else mkP (io s) (events s) (pipe s) false false false (sig_closed s) (inq s)
+                              (hup s) (saved s) (cur s) (g_owed_wake s) (g_owed_winch s)
+                              (g_arrived s) (g_returned s))).
+    { destruct (winch s) eqn:Ew.
+      - split; cbn; auto; try discriminate. rewrite inputs_app. cbn. rewrite app_nil_r. exact Hi.
+      - split; cbn; auto; try discriminate; try (intro H; rewrite (Hc H) in Ew; discriminate). }
+    destruct (termsig s); exact H2.
   Qed.
 
   Lemma PI_wake_step : forall s : pstate, PI s -> PI (wake_step s).
@@ -128,7 +135,7 @@ Section PollProofs.
     match write_step s0 r w with inl s1 => PI s1 | inr _ => True end.
   Proof.
     intros s0 r w H0. unfold write_step. destruct w; [|exact H0].
-    destruct (r_wr_err r); [exact I|].
+    destruct (r_wr_err r || hup _); [exact I|].
     destruct (r_accept r); [|exact H0].
     destruct (poll_round _ _); try exact I. now apply PI_upd_io.
   Qed.
@@ -158,17 +165,18 @@ Section PollProofs.
   Lemma PI_round_body : forall (s : pstate) r nodelay, PI s ->
     match round_body s r nodelay with
     | inl (_, s') => PI s'
-    | inr s' => PI s'
+    | inr (s', _) => PI s'
     end.
   Proof.
     intros s r nodelay HP. unfold round_body.
     set (s0 := arrive_all s (r_before r)).
     assert (H0 : PI s0) by now apply PI_arrive_all.
-    destruct (negb _ && nodelay); [exact H0|].
+    destruct (negb _ && nodelay && events_empty s); [exact H0|].
     match goal with |- context [write_step s0 r ?w] =>
       pose proof (PI_write_step s0 r w H0) as HW; destruct (write_step s0 r w) as [s1|e] end;
       [|exact H0].
-    now apply PI_reads.
+    match goal with |- context [reads s1 r ?a ?b ?c] =>
+      pose proof (PI_reads s1 r a b c HW) as HR; destruct (reads s1 r a b c) as [[res s']|s'] end; exact HR.
   Qed.
 
   Lemma PI_poll_loop : forall sched finite first (s : pstate), PI s ->
@@ -180,7 +188,8 @@ Section PollProofs.
       destruct (finite && r_expired r && negb first); [cbn; now apply PI_pop_ret|].
       destruct (r_eintr r); [apply IH; now apply PI_arrive_all|].
       pose proof (PI_round_body s r (negb finite) HP) as Hb.
-      destruct (round_body s r (negb finite)) as [[res s']|s']; [exact Hb|]. apply IH, Hb.
+      destruct (round_body s r (negb finite)) as [[res s']|[s' w]]; [exact Hb|].
+      destruct (negb (events_empty s') && negb w); [cbn; now apply PI_pop_ret|apply IH, Hb].
   Qed.
 
   (* the invariant holds after every poll, whatever the schedule and however the poll ends *)
@@ -215,14 +224,15 @@ Section PollProofs.
   Lemma Wk_sig_step : forall s : pstate, Wk s ->
     match sig_step s with inl s' => Wk s' | inr s' => Wk s' end.
   Proof.
-    intros s H. unfold sig_step. cbn. destruct (termsig s); [exact H|].
-    destruct (winch s); [|exact H]. destruct H as [H|H]; [left; exact H|right].
-    cbn. apply in_or_app. now left.
+    intros s H. unfold sig_step.
+    assert (H2 : forall s2 : pstate, pipe s2 = pipe s -> (forall e, In e (events s) -> In e (events s2)) -> Wk s2).
+    { intros s2 Hp He. destruct H as [H|H]; [left; lia|right; auto]. }
+    destruct (termsig s), (winch s); apply H2; cbn; auto; intros e He; apply in_or_app; now left.
   Qed.
 
   Lemma sig_step_pipe : forall s : pstate,
     match sig_step s with inl s' => pipe s' = pipe s | inr s' => pipe s' = pipe s end.
-  Proof. intro s. unfold sig_step. cbn. destruct (termsig s); auto. destruct (winch s); auto. Qed.
+  Proof. intro s. unfold sig_step. destruct (termsig s), (winch s); reflexivity. Qed.
 
   Lemma Wk_wake_step : forall s : pstate, Wk s -> Wk (wake_step s).
   Proof.
@@ -263,7 +273,7 @@ Section PollProofs.
     match write_step s0 r w with inl s1 => Wk s1 | inr _ => True end.
   Proof.
     intros s0 r w H. unfold write_step. destruct w; [|exact H].
-    destruct (r_wr_err r); [exact I|]. destruct (r_accept r); [|exact H].
+    destruct (r_wr_err r || hup _); [exact I|]. destruct (r_accept r); [|exact H].
     destruct (poll_round _ _); try exact I. exact H.
   Qed.
 
@@ -289,16 +299,17 @@ Section PollProofs.
   Qed.
 
   Lemma Wk_round_body : forall (s : pstate) r nodelay, Wk s ->
-    match round_body s r nodelay with inl (_, s') => Wk s' | inr s' => Wk s' end.
+    match round_body s r nodelay with inl (_, s') => Wk s' | inr (s', _) => Wk s' end.
   Proof.
     intros s r nodelay HP. unfold round_body.
     set (s0 := arrive_all s (r_before r)).
     assert (H0 : Wk s0) by now apply Wk_arrive_all.
-    destruct (negb _ && nodelay); [exact H0|].
+    destruct (negb _ && nodelay && events_empty s); [exact H0|].
     match goal with |- context [write_step s0 r ?w] =>
       pose proof (Wk_write_step s0 r w H0) as HW; destruct (write_step s0 r w) as [s1|e] end;
       [|exact H0].
-    now apply Wk_reads.
+    match goal with |- context [reads s1 r ?a ?b ?c] =>
+      pose proof (Wk_reads s1 r a b c HW) as HR; destruct (reads s1 r a b c) as [[res s']|s'] end; exact HR.
   Qed.
 
   Lemma Wk_pop_ret : forall s : pstate, Wk s ->
@@ -325,7 +336,9 @@ Section PollProofs.
       { pose proof (Wk_pop_ret s HP). destruct (pop_ret s). exact H. }
       destruct (r_eintr r); [apply IH; now apply Wk_arrive_all|].
       pose proof (Wk_round_body s r (negb finite) HP) as Hb.
-      destruct (round_body s r (negb finite)) as [[res s']|s']; [right; exact Hb|]. apply IH, Hb.
+      destruct (round_body s r (negb finite)) as [[res s']|[s' w]]; [right; exact Hb|].
+      destruct (negb (events_empty s') && negb w); [|apply IH, Hb].
+      pose proof (Wk_pop_ret s' Hb). destruct (pop_ret s'). exact H.
   Qed.
 
   (* A wake request is never lost: once a byte is in the waker socket or a Wake event is queued,
@@ -362,21 +375,23 @@ Section PollProofs.
     - intro E. inversion E; subst. exact H6.
   Qed.
 
-  Theorem round_queues_wake : forall (s : pstate) r nodelay s',
-    0 < pipe (arrive_all s (r_before r)) -> round_body s r nodelay = inr s' ->
+  Theorem round_queues_wake : forall (s : pstate) r nodelay s' w,
+    0 < pipe (arrive_all s (r_before r)) -> round_body s r nodelay = inr (s', w) ->
     In EvWake (events s').
   Proof.
-    intros s r nodelay s' Hp. unfold round_body.
+    intros s r nodelay s' w Hp. unfold round_body.
     set (s0 := arrive_all s (r_before r)) in *.
     assert (Hw : (0 <? pipe s0) = true) by now apply Nat.ltb_lt.
-    rewrite Hw. destruct (negb _ && nodelay); [discriminate|].
+    rewrite Hw. destruct (negb _ && nodelay && events_empty s); [discriminate|].
     match goal with |- context [write_step s0 r ?w] =>
       assert (Hws : match write_step s0 r w with inl s1 => pipe s1 = pipe s0 | inr _ => True end) end.
-    { unfold write_step. destruct (_ && _); auto. destruct (r_wr_err r); auto.
+    { unfold write_step. destruct (_ && _); auto. destruct (r_wr_err r || hup _); auto.
       destruct (r_accept r); auto. destruct (poll_round _ _); auto. }
     match goal with |- context [write_step s0 r ?w] => destruct (write_step s0 r w) as [s1|e] end;
       [|discriminate].
-    intro E. eapply reads_wake; [|exact E]. lia.
+    match goal with |- context [reads s1 r ?a true ?c] => destruct (reads s1 r a true c) as [x|s7] eqn:Er end;
+      [discriminate|].
+    intro E. inversion E; subst. eapply reads_wake; [|exact Er]. lia.
   Qed.
 
   (* events leave in the order they were queued *)
@@ -399,7 +414,7 @@ Section PollProofs.
     rewrite orb_true_r. cbn [orb negb andb].
     match goal with |- context [write_step s0 r ?w] =>
       assert (Hws : match write_step s0 r w with inl s1 => termsig s1 = true | inr _ => True end) end.
-    { unfold write_step. destruct (_ && _); auto. destruct (r_wr_err r); auto.
+    { unfold write_step. destruct (_ && _); auto. destruct (r_wr_err r || hup _); auto.
       destruct (r_accept r); auto. destruct (poll_round _ _); auto. }
     match goal with |- context [write_step s0 r ?w] => destruct (write_step s0 r w) as [s1|e] end;
       [|exact I].
@@ -408,7 +423,7 @@ Section PollProofs.
     { clear - Hws. unfold s2, arrive_all. generalize dependent s1.
       induction (r_sig r) as [|m ms IH]; intros s1 H; cbn; auto. apply IH.
       destruct m; cbn; try destruct (sig_closed s1); cbn; auto. }
-    unfold sig_step. cbn. rewrite H2. exact I.
+    unfold sig_step. rewrite H2. exact I.
   Qed.
 
   (* ---------------------------------------------------------------- what poll never touches *)
@@ -437,10 +452,7 @@ Section PollProofs.
 
   Lemma Same_sig_step : forall s : pstate,
     match sig_step s with inl s' => Same s s' | inr s' => Same s s' end.
-  Proof.
-    intro s. unfold sig_step. cbn. destruct (termsig s); [repeat split|].
-    destruct (winch s); repeat split.
-  Qed.
+  Proof. intro s. unfold sig_step. destruct (termsig s), (winch s); repeat split. Qed.
 
   Lemma Same_wake_step : forall s : pstate, Same s (wake_step s).
   Proof. intro s. unfold wake_step. destruct (Nat.min (pipe s) 1024); repeat split. Qed.
@@ -488,26 +500,34 @@ Section PollProofs.
 
   Definition Out (s s' : pstate) : Prop :=
     saved s' = saved s /\ cur s' = cur s /\ sig_closed s' = sig_closed s
-    /\ stream s' = stream s /\ QI s'.
+    /\ stream s' = stream s /\ QI s' /\ exists out, tty (io s') = tty (io s) ++ out.
 
   Lemma Out_of_Same : forall s s' : pstate, QI s -> Same s s' -> Out s s'.
   Proof.
-    intros s s' HQ (a & b & c & d). unfold Out, stream, QI in *. rewrite d. repeat split; auto; apply HQ.
+    intros s s' HQ (a & b & c & d). unfold Out, stream, QI in *. rewrite d.
+    split; auto. split; auto. split; auto. split; auto. split; [exact HQ|]. exists []. now rewrite app_nil_r.
   Qed.
+
+  Lemma Out_QI : forall s s' : pstate, Out s s' -> QI s'.
+  Proof. intros s s' (_ & _ & _ & _ & H & _). exact H. Qed.
 
   Lemma Out_trans : forall s1 s2 s3 : pstate, Out s1 s2 -> Out s2 s3 -> Out s1 s3.
   Proof.
-    intros s1 s2 s3 (a & b & c & d & e) (a' & b' & c' & d' & e'). repeat split; try congruence; apply e'.
+    intros s1 s2 s3 (a & b & c & d & e & o1 & Ho1) (a' & b' & c' & d' & e' & o2 & Ho2).
+    split; [congruence|]. split; [congruence|]. split; [congruence|]. split; [congruence|].
+    split; [exact e'|]. exists (o1 ++ o2). rewrite Ho2, Ho1. now rewrite app_assoc.
   Qed.
 
   Lemma poll_round_stream : forall (t : term A) k,
     Inv (tq t) -> (N.of_nat (total_len (chunks (tq t))) <= usize_max)%N ->
     exists t', poll_round t (KAccept k) = Ok t'
       /\ tty t' ++ pending (tq t') = tty t ++ pending (tq t)
-      /\ Inv (tq t') /\ total_len (chunks (tq t')) <= total_len (chunks (tq t)).
+      /\ Inv (tq t') /\ total_len (chunks (tq t')) <= total_len (chunks (tq t))
+      /\ exists out, tty t' = tty t ++ out.
   Proof.
     intros t k HI HB. cbn [poll_round].
-    destruct (is_empty (tq t)); [exists t; auto|].
+    destruct (is_empty (tq t)).
+    { exists t. split; auto. split; auto. split; auto. split; auto. exists []. now rewrite app_nil_r. }
     pose proof (offset_le_total (tq t) (inv_off _ HI)) as Hot.
     unfold consume_with. rewrite (as_slice_ok (tq t) (inv_off _ HI)). cbn [bind].
     set (s := front_slice (tq t)) in *. set (size := consumer k true s).
@@ -515,7 +535,7 @@ Section PollProofs.
     destruct (consume_take (tq t) size HI) as (q' & E & Ht); [lia|].
     rewrite E. cbn [bind].
     destruct (take_sound (tq t) size q' HI Ht) as (HI' & Htot & _ & Hp).
-    eexists. split; [reflexivity|]. cbn [tq tty]. split; [|split; auto].
+    eexists. split; [reflexivity|]. cbn [tq tty]. split; [|split; [auto|split; [auto|eexists; reflexivity]]].
     rewrite Hp. fold s. unfold taken.
     replace (N.min size (N.of_nat (length s))) with size by lia.
     now rewrite <- app_assoc.
@@ -526,29 +546,29 @@ Section PollProofs.
   Proof.
     intros s0 r w [HI HB]. unfold write_step.
     destruct w; [|apply Out_of_Same; [split; auto|apply Same_refl]].
-    destruct (r_wr_err r); [exact I|].
+    destruct (r_wr_err r || hup _); [exact I|].
     destruct (r_accept r) as [k|]; [|apply Out_of_Same; [split; auto|apply Same_refl]].
-    destruct (poll_round_stream (io s0) k HI HB) as (t' & E & Hs & HI' & Htot). rewrite E.
+    destruct (poll_round_stream (io s0) k HI HB) as (t' & E & Hs & HI' & Htot & Hout). rewrite E.
     unfold Out, stream, QI, upd_io. cbn [saved cur sig_closed io].
     split; [reflexivity|]. split; [reflexivity|]. split; [reflexivity|]. split; [exact Hs|].
-    split; [exact HI'|lia].
+    split; [split; [exact HI'|lia]|exact Hout].
   Qed.
 
   Lemma Out_round_body : forall (s : pstate) r nodelay, QI s ->
-    match round_body s r nodelay with inl (_, s') => Out s s' | inr s' => Out s s' end.
+    match round_body s r nodelay with inl (_, s') => Out s s' | inr (s', _) => Out s s' end.
   Proof.
     intros s r nodelay HQ. unfold round_body.
     set (s0 := arrive_all s (r_before r)).
     assert (H0 : Out s s0) by (apply Out_of_Same; [exact HQ|apply Same_arrive_all]).
-    destruct (negb _ && nodelay); [exact H0|].
+    destruct (negb _ && nodelay && events_empty s); [exact H0|].
     match goal with |- context [write_step s0 r ?w] =>
-      pose proof (Out_write_step s0 r w (proj2 (proj2 (proj2 (proj2 H0))))) as HW;
+      pose proof (Out_write_step s0 r w (Out_QI _ _ H0)) as HW;
       destruct (write_step s0 r w) as [s1|e] end; [|exact H0].
     pose proof (Same_reads s1 r (sigpipe s0) (0 <? pipe s0)
                   ((match inq s0 with [] => false | _ => true end) || hup s0)) as HR.
     assert (H1 : Out s s1) by (eapply Out_trans; eauto).
     destruct (reads s1 r _ _ _) as [[res s']|s'];
-      (eapply Out_trans; [exact H1|apply Out_of_Same; [apply H1|exact HR]]).
+      (eapply Out_trans; [exact H1|apply Out_of_Same; [apply (Out_QI _ _ H1)|exact HR]]).
   Qed.
 
   Lemma Out_poll_loop : forall sched finite first (s : pstate), QI s ->
@@ -562,10 +582,12 @@ Section PollProofs.
       destruct (r_eintr r).
       + assert (H0 : Out s (arrive_all s (r_before r)))
           by (apply Out_of_Same; [exact HQ|apply Same_arrive_all]).
-        eapply Out_trans; [exact H0|]. apply IH. apply H0.
+        eapply Out_trans; [exact H0|]. apply IH. apply (Out_QI _ _ H0).
       + pose proof (Out_round_body s r (negb finite) HQ) as Hb.
-        destruct (round_body s r (negb finite)) as [[res s']|s']; [exact Hb|].
-        eapply Out_trans; [exact Hb|]. apply IH. apply Hb.
+        destruct (round_body s r (negb finite)) as [[res s']|[s' w]]; [exact Hb|].
+        destruct (negb (events_empty s') && negb w).
+        * cbn. eapply Out_trans; [exact Hb|]. apply Out_of_Same; [apply (Out_QI _ _ Hb)|apply Same_pop_ret].
+        * eapply Out_trans; [exact Hb|]. apply IH. apply (Out_QI _ _ Hb).
   Qed.
 
   (* a poll changes neither the saved nor the current line settings, and moves bytes from the
@@ -579,10 +601,210 @@ Section PollProofs.
     { unfold Out, stream, QI, s1, upd_io. cbn [saved cur sig_closed io tq tty].
       rewrite pending_flush.
       split; [reflexivity|]. split; [reflexivity|]. split; [reflexivity|]. split; [reflexivity|].
+      split; [|exists []; now rewrite app_nil_r].
       split; [now apply Inv_flush|].
       destruct (flush_cases (tq (io s))) as [[_ ->]|[_ ->]]; auto.
       unfold total_len in *. cbn [chunks]. rewrite concat_app, app_length. cbn. lia. }
-    eapply Out_trans; [exact H1|]. apply Out_poll_loop. apply H1.
+    eapply Out_trans; [exact H1|]. apply Out_poll_loop. apply (Out_QI _ _ H1).
+  Qed.
+
+  (* ---------------------------------------------------------------- a poll with a wake in the pipeline does not sleep *)
+  Lemma reads_not_blocked : forall (s1 : pstate) r a b c x, reads s1 r a b c = inl x -> fst x <> PBlocked.
+  Proof.
+    intros s1 r a b c x. unfold reads.
+    destruct (if a then sig_step _ else inl _); [|intro E; inversion E; discriminate].
+    destruct (if c then in_step _ _ else inl _); intro E; inversion E; discriminate.
+  Qed.
+
+  Lemma round_not_blocked : forall (s : pstate) r nodelay x, Wk s ->
+    round_body s r nodelay = inl x -> fst x <> PBlocked.
+  Proof.
+    intros s r nodelay x HW. unfold round_body.
+    set (s0 := arrive_all s (r_before r)).
+    assert (Hc : (negb
+                   (negb (queue_empty s0) && (match r_accept r with Some _ => true | None => r_wr_err r end || hup s0)
+                    || sigpipe s0 || (0 <? pipe s0) || (match inq s0 with [] => false | _ => true end || hup s0))
+                  && nodelay && events_empty s) = false).
+    { destruct HW as [Hp|He].
+      - assert (H0 : (0 <? pipe s0) = true) by (apply Nat.ltb_lt; now apply pipe_arrive_all_pos).
+        rewrite H0. rewrite orb_true_r. cbn. reflexivity.
+      - unfold events_empty. destruct (events s); [contradiction|]. now rewrite andb_false_r. }
+    rewrite Hc.
+    destruct (write_step _ _ _); [|intro E; inversion E; discriminate].
+    destruct (reads _ _ _ _ _) as [y|y] eqn:Er; [|discriminate].
+    intro E. inversion E; subst. eapply reads_not_blocked; eauto.
+  Qed.
+
+  Lemma poll_loop_not_blocked : forall sched finite first (s : pstate), Wk s ->
+    fst (fst (poll_loop finite first s sched)) <> PBlocked.
+  Proof.
+    induction sched as [|r rest IH]; intros finite first s HW; cbn [poll_loop].
+    - destruct (_ && _); cbn; [|discriminate]. unfold pop_ret. destruct (events s); discriminate.
+    - destruct (queue_empty s && _); [unfold pop_ret; destruct (events s); discriminate|].
+      destruct (finite && r_expired r && negb first); [unfold pop_ret; destruct (events s); discriminate|].
+      destruct (r_eintr r); [apply IH; now apply Wk_arrive_all|].
+      pose proof (Wk_round_body s r (negb finite) HW) as Hb.
+      destruct (round_body s r (negb finite)) as [[res s']|[s' w]] eqn:Er.
+      + cbn. apply (round_not_blocked s r (negb finite) (res, s') HW Er).
+      + destruct (negb (events_empty s') && negb w); [unfold pop_ret; destruct (events s'); discriminate|].
+        apply IH, Hb.
+  Qed.
+
+  (* with a wake in the pipeline a poll never goes to sleep: it ends with an event, an error, or
+     (only because the given schedule ends) in the middle of the loop *)
+  Theorem wake_never_sleeps : forall finite (s : pstate) sched, Wk s ->
+    fst (fst (poll finite s sched)) <> PBlocked.
+  Proof. intros. unfold poll. apply poll_loop_not_blocked. exact H. Qed.
+
+  (* ---------------------------------------------------------------- events leave oldest first *)
+  Definition Ext (s s' : pstate) : Prop := exists add, events s' = events s ++ add.
+
+  Lemma Ext_refl : forall s : pstate, Ext s s.
+  Proof. intro s. exists []. now rewrite app_nil_r. Qed.
+
+  Lemma Ext_trans : forall s1 s2 s3 : pstate, Ext s1 s2 -> Ext s2 s3 -> Ext s1 s3.
+  Proof. intros s1 s2 s3 [a Ha] [b Hb]. exists (a ++ b). now rewrite Hb, Ha, app_assoc. Qed.
+
+  Lemma Ext_arrive_all : forall ms (s : pstate), Ext s (arrive_all s ms).
+  Proof.
+    unfold arrive_all. induction ms as [|m ms IH]; intro s; cbn; [apply Ext_refl|].
+    eapply Ext_trans; [|apply IH]. exists []. rewrite app_nil_r.
+    destruct m; cbn; try destruct (sig_closed s); reflexivity.
+  Qed.
+
+  Lemma Ext_reads : forall (s1 : pstate) r a b c,
+    match reads s1 r a b c with inl (_, s') => Ext s1 s' | inr s' => Ext s1 s' end.
+  Proof.
+    intros s1 r a b c. unfold reads.
+    set (s2 := arrive_all s1 (r_sig r)).
+    assert (H2 : Ext s1 s2) by apply Ext_arrive_all.
+    assert (H3 : match (if a then sig_step s2 else inl s2) with
+                 | inl s3 => Ext s1 s3 | inr s3 => Ext s1 s3 end).
+    { destruct a; [|exact H2]. unfold sig_step.
+      assert (Hx : forall s3 : pstate, (events s3 = events s2 \/ events s3 = events s2 ++ [EvResize]) -> Ext s1 s3).
+      { intros s3 [E|E]; (eapply Ext_trans; [exact H2|]); [exists []; now rewrite app_nil_r|now exists [EvResize]]. }
+      destruct (termsig s2), (winch s2); apply Hx; cbn; auto. }
+    destruct (if a then sig_step s2 else inl s2) as [s3|sq]; [|exact H3].
+    set (s4 := arrive_all s3 (r_wk r)).
+    assert (H4 : Ext s1 s4) by (eapply Ext_trans; [exact H3|apply Ext_arrive_all]).
+    set (s5 := if b then wake_step s4 else s4).
+    assert (H5 : Ext s1 s5).
+    { unfold s5. destruct b; [|exact H4]. eapply Ext_trans; [exact H4|]. unfold wake_step.
+      destruct (Nat.min (pipe s4) 1024); [exists []; now rewrite app_nil_r|now exists [EvWake]]. }
+    set (s6 := arrive_all s5 (r_in r)).
+    assert (H6 : Ext s1 s6) by (eapply Ext_trans; [exact H5|apply Ext_arrive_all]).
+    destruct c; [|exact H6]. unfold in_step. destruct (inq s6) as [|t0 rest]; [exact H6|].
+    match goal with |- Ext s1 (fold_left _ ?got ?sx) => destruct (push_inputs got sx) as (He & _) end.
+    eapply Ext_trans; [exact H6|]. eexists. rewrite He. reflexivity.
+  Qed.
+
+  Lemma Ext_round_body : forall (s : pstate) r nodelay,
+    match round_body s r nodelay with inl (_, s') => Ext s s' | inr (s', _) => Ext s s' end.
+  Proof.
+    intros s r nodelay. unfold round_body.
+    set (s0 := arrive_all s (r_before r)).
+    assert (H0 : Ext s s0) by apply Ext_arrive_all.
+    destruct (negb _ && nodelay && events_empty s); [exact H0|].
+    match goal with |- context [write_step s0 r ?w] =>
+      assert (HW : match write_step s0 r w with inl s1 => Ext s s1 | inr _ => True end) end.
+    { unfold write_step. destruct (_ && _); [|exact H0]. destruct (r_wr_err r || hup _); [exact I|].
+      destruct (r_accept r); [|exact H0]. destruct (poll_round _ _); try exact I. exact H0. }
+    match goal with |- context [write_step s0 r ?w] => destruct (write_step s0 r w) as [s1|e] end; [|exact H0].
+    match goal with |- context [reads s1 r ?a ?b ?c] =>
+      pose proof (Ext_reads s1 r a b c) as HR; destruct (reads s1 r a b c) as [[res s']|s'] end;
+      eapply Ext_trans; eauto.
+  Qed.
+
+  Definition popped (evs : list event) (res : pres T) (s' : pstate) : Prop :=
+    match evs with
+    | [] => res = PRet None /\ events s' = []
+    | x :: l => res = PRet (Some x) /\ events s' = l
+    end.
+
+  Lemma pop_ret_popped : forall s : pstate, popped (events s) (fst (pop_ret s)) (snd (pop_ret s)).
+  Proof. intro s. unfold pop_ret, popped. destruct (events s) eqn:E; cbn; auto. Qed.
+
+  Lemma round_inl_not_ret : forall (s : pstate) r nodelay res s' e,
+    round_body s r nodelay = inl (res, s') -> res <> PRet e.
+  Proof.
+    intros s r nodelay res s' e. unfold round_body.
+    destruct (negb _ && nodelay && events_empty s); [intro E; inversion E; discriminate|].
+    destruct (write_step _ _ _); [|intro E; inversion E; discriminate].
+    unfold reads.
+    destruct (if sigpipe _ then sig_step _ else inl _); [|intro E; inversion E; discriminate].
+    destruct (if (_ || hup _) then in_step _ _ else inl _); intro E; inversion E; discriminate.
+  Qed.
+
+  Lemma poll_loop_fifo : forall sched finite first (s : pstate) res s' rest,
+    poll_loop finite first s sched = (PRet res, s', rest) ->
+    exists add, popped (events s ++ add) (PRet res) s'.
+  Proof.
+    induction sched as [|r rest0 IH]; intros finite first s res s' rest; cbn [poll_loop].
+    - destruct (_ && _); [|discriminate]. intro E. exists []. rewrite app_nil_r.
+      pose proof (pop_ret_popped s) as Hp. destruct (pop_ret s). inversion E; subst. exact Hp.
+    - destruct (queue_empty s && _).
+      { intro E. exists []. rewrite app_nil_r.
+        pose proof (pop_ret_popped s) as Hp. destruct (pop_ret s). inversion E; subst. exact Hp. }
+      destruct (finite && r_expired r && negb first).
+      { intro E. exists []. rewrite app_nil_r.
+        pose proof (pop_ret_popped s) as Hp. destruct (pop_ret s). inversion E; subst. exact Hp. }
+      destruct (r_eintr r).
+      { intro E. destruct (IH _ _ _ _ _ _ E) as [add Ha]. destruct (Ext_arrive_all (r_before r) s) as [a0 H0].
+        exists (a0 ++ add). rewrite app_assoc, <- H0. exact Ha. }
+      pose proof (Ext_round_body s r (negb finite)) as Hb.
+      destruct (round_body s r (negb finite)) as [[res1 s1]|[s1 w]] eqn:Er.
+      + intro E. inversion E; subst. exfalso. eapply round_inl_not_ret; eauto.
+      + destruct Hb as [a0 H0]. destruct (negb (events_empty s1) && negb w).
+        * intro E. exists a0. rewrite <- H0.
+          pose proof (pop_ret_popped s1) as Hp. destruct (pop_ret s1). inversion E; subst. exact Hp.
+        * intro E. destruct (IH _ _ _ _ _ _ E) as [add Ha]. exists (a0 ++ add).
+          rewrite app_assoc, <- H0. exact Ha.
+  Qed.
+
+  (* Events leave in the order they were queued: a poll that returns, returns the oldest queued
+     event (None only if none was queued and none arrived), and what it leaves queued is the rest
+     followed by what arrived meanwhile.  Hence an event with i events ahead of it is returned by
+     the (i+1)-th poll that returns. *)
+  Theorem poll_fifo : forall finite (s : pstate) sched res s' rest,
+    poll finite s sched = (PRet res, s', rest) ->
+    exists add, popped (events s ++ add) (PRet res) s'.
+  Proof. intros finite s sched res s' rest E. unfold poll in E. apply poll_loop_fifo in E. exact E. Qed.
+
+  (* ---------------------------------------------------------------- a poll returns *)
+  (* the loop ends as soon as an event is queued and either nothing is left to write or the tty
+     does not take more: at the loop test with an empty queue, or at the end of an iteration in
+     which select did not report the tty writable *)
+  Theorem returns_when_idle : forall finite first (s : pstate) sched,
+    queue_empty s = true -> events s <> [] ->
+    exists e, fst (fst (poll_loop finite first s sched)) = PRet (Some e).
+  Proof.
+    intros finite first s sched Hq He. destruct sched; cbn [poll_loop]; rewrite Hq; unfold events_empty, pop_ret;
+      destruct (events s) as [|e l]; try congruence; cbn; eauto.
+  Qed.
+
+  Theorem returns_when_tty_stalls : forall finite first (s : pstate) r rest s',
+    (queue_empty s && negb (events_empty s)) = false ->
+    (finite && r_expired r && negb first) = false -> r_eintr r = false ->
+    round_body s r (negb finite) = inr (s', false) -> events s' <> [] ->
+    exists e, fst (fst (poll_loop finite first s (r :: rest))) = PRet (Some e).
+  Proof.
+    intros finite first s r rest s' H1 H2 H3 H4 H5. cbn [poll_loop]. rewrite H1, H2, H3, H4.
+    unfold events_empty, pop_ret. destruct (events s') as [|e l]; [congruence|]. cbn. eauto.
+  Qed.
+
+  (* in particular a wake request: an iteration that gets through select with a byte in the waker
+     socket while the tty is not writable ends the poll at once, with an event *)
+  Corollary wake_returns_now : forall finite first (s : pstate) r rest s',
+    (queue_empty s && negb (events_empty s)) = false ->
+    (finite && r_expired r && negb first) = false -> r_eintr r = false ->
+    0 < pipe (arrive_all s (r_before r)) ->
+    round_body s r (negb finite) = inr (s', false) ->
+    exists e, fst (fst (poll_loop finite first s (r :: rest))) = PRet (Some e).
+  Proof.
+    intros finite first s r rest s' H1 H2 H3 Hp H4.
+    eapply returns_when_tty_stalls; eauto.
+    pose proof (round_queues_wake s r (negb finite) s' false Hp H4) as Hin.
+    intro E. rewrite E in Hin. contradiction.
   Qed.
 
   (* ---------------------------------------------------------------- dispose *)
@@ -596,11 +818,11 @@ Section PollProofs.
     destruct (poll true s sched) as [[res s1] rest1]. cbn [fst snd] in HP.
     destruct res as [[e|]| | |]; try discriminate.
     - destruct e as [| |t].
-      + eapply Out_trans; [exact HP|]. eapply IH; [apply HP|exact E].
-      + eapply Out_trans; [exact HP|]. eapply IH; [apply HP|exact E].
+      + eapply Out_trans; [exact HP|]. eapply IH; [apply (Out_QI _ _ HP)|exact E].
+      + eapply Out_trans; [exact HP|]. eapply IH; [apply (Out_QI _ _ HP)|exact E].
       + destruct (is_da t).
         * inversion E; subst. exact HP.
-        * eapply Out_trans; [exact HP|]. eapply IH; [apply HP|exact E].
+        * eapply Out_trans; [exact HP|]. eapply IH; [apply (Out_QI _ _ HP)|exact E].
     - inversion E; subst. exact HP.
     - inversion E; subst. exact HP.
   Qed.
@@ -633,13 +855,162 @@ Section PollProofs.
     assert (Hs1 : stream s1 = tty (io s) ++ front_slice (tq (io s)) ++ closing).
     { unfold stream, s1. cbn. rewrite pending_write by apply HI1.
       rewrite pending_split, Hf, Htl. cbn. now rewrite app_nil_r. }
-    destruct (dispose_loop is_da fuel s1 sched) as [[s2 rest]|] eqn:El; [|discriminate].
-    destruct (Out_dispose_loop fuel s1 sched s2 rest HQ1 El) as (Hsv & Hcu & Hcl & Hst & _).
+    (* the signal handler is closed and flagged signals are forgotten *)
+    match type of E with context [dispose_loop is_da fuel ?sc sched] => set (s1c := sc) in E end.
+    assert (HQc : QI s1c) by exact HQ1.
+    assert (Hsc : stream s1c = stream s1) by reflexivity.
+    destruct (dispose_loop is_da fuel s1c sched) as [[s2 rest]|] eqn:El; [|discriminate].
+    destruct (Out_dispose_loop fuel s1c sched s2 rest HQc El) as (Hsv & Hcu & Hcl & Hst & _).
     assert (Hst2 : stream s2 = tty (io s) ++ front_slice (tq (io s)) ++ closing)
-      by (rewrite Hst; exact Hs1).
-    cbn [hup] in E. destruct (hup s2) eqn:Eh; inversion E as [E']; clear E; cbn.
-    - split; [exact Hsv|]. split; [reflexivity|]. split; [discriminate|]. exact Hst2.
-    - split; [exact Hsv|]. split; [reflexivity|]. split; [intros _; exact Hsv|]. exact Hst2.
+      by (rewrite Hst, Hsc; exact Hs1).
+    assert (Hclosed : sig_closed s2 = true) by (rewrite Hcl; reflexivity).
+    assert (Hsaved : saved s2 = saved s) by (rewrite Hsv; reflexivity).
+    destruct (hup s2) eqn:Eh; inversion E as [E']; clear E; subst s'; cbn.
+    - split; [exact Hsaved|]. split; [exact Hclosed|]. split; [congruence|]. exact Hst2.
+    - split; [exact Hsaved|]. split; [exact Hclosed|]. split; [intros _; exact Hsaved|]. exact Hst2.
+  Qed.
+
+  (* ---------------- when the tty takes what it is given, the closing sequence is delivered *)
+  Definition Drained (s : pstate) : Prop := pending (tq (io s)) = [].
+
+  Lemma Out_drained : forall s s' : pstate, Out s s' -> Drained s -> Drained s'.
+  Proof.
+    intros s s' (_ & _ & _ & Hst & _ & out & Ho) Hd. unfold Drained, stream in *.
+    rewrite Hd, Ho, app_nil_r, <- app_assoc in Hst.
+    rewrite <- (app_nil_r (tty (io s))) in Hst at 2.
+    apply app_inv_head in Hst. now apply app_eq_nil in Hst.
+  Qed.
+
+  Lemma pending_pop : forall q : queue A, pending (q_pop q) = concat (tl (chunks q)).
+  Proof. intros [[|c [|c2 r]] o l]; reflexivity. Qed.
+
+  (* the write step with a tty that accepts a whole slice, on a queue whose data is all in the
+     front chunk: nothing is left pending *)
+  Lemma poll_round_all : forall (t : term A) k,
+    Inv (tq t) -> (N.of_nat (total_len (chunks (tq t))) <= usize_max)%N -> (usize_max <= k)%N ->
+    concat (tl (chunks (tq t))) = [] ->
+    exists t', poll_round t (KAccept k) = Ok t' /\ pending (tq t') = [].
+  Proof.
+    intros t k HI HB Hk Hc. cbn [poll_round].
+    destruct (is_empty (tq t)) eqn:Hemp.
+    { exists t. split; auto. unfold is_empty, pending in *. destruct (chunks (tq t)); [auto|discriminate]. }
+    pose proof (offset_le_total (tq t) (inv_off _ HI)) as Hot.
+    unfold consume_with. rewrite (as_slice_ok (tq t) (inv_off _ HI)). cbn [bind].
+    set (sl := front_slice (tq t)) in *. set (size := consumer k true sl).
+    assert (Hsize : size = N.of_nat (length sl)) by (unfold size, consumer; lia).
+    destruct (consume_take (tq t) size HI) as (q' & E & Ht); [lia|].
+    rewrite E. cbn [bind]. eexists. split; [reflexivity|]. cbn [tq].
+    destruct Ht as [[Hlt _]|[_ ->]]; [fold sl in Hlt; lia|].
+    rewrite pending_pop. exact Hc.
+  Qed.
+
+  Lemma first_round_drains : forall finite (s : pstate) r rest k,
+    QI s -> concat (tl (chunks (tq (io s)))) = [] ->
+    r_eintr r = false -> r_wr_err r = false -> r_accept r = Some k -> (usize_max <= k)%N ->
+    hup (arrive_all s (r_before r)) = false ->
+    Drained (snd (fst (poll_loop finite true s (r :: rest)))).
+  Proof.
+    intros finite s r rest k HQ Hc He Hw Ha Hk Hh. cbn [poll_loop].
+    assert (Hqe : forall x : pstate, io x = io s -> queue_empty x = true -> Drained x).
+    { intros x Hio Hq. unfold Drained, queue_empty, is_empty, pending in *. rewrite Hio in *.
+      destruct (chunks (tq (io s))); [auto|discriminate]. }
+    destruct (queue_empty s && _) eqn:E0.
+    { cbn. apply andb_true_iff in E0. destruct E0 as [Hq _].
+      eapply Out_drained; [apply Out_of_Same; [exact HQ|apply Same_pop_ret]|]. now apply Hqe. }
+    rewrite andb_false_r. cbn [andb]. rewrite He.
+    pose proof (Out_round_body s r (negb finite) HQ) as Hb.
+    assert (Hdr : match round_body s r (negb finite) with
+                  | inl (_, s') => Drained s' | inr (s', _) => Drained s' end).
+    { unfold round_body in *.
+      set (s0 := arrive_all s (r_before r)) in *.
+      assert (Hio0 : io s0 = io s) by apply (Same_arrive_all (r_before r) s).
+      destruct (negb _ && negb finite && events_empty s) eqn:Eb.
+      - (* blocked: then nothing was to be written *)
+        apply Hqe; auto. rewrite Ha in Eb. destruct (queue_empty s0); auto; cbn in Eb; try discriminate.
+      - rewrite Ha in *. fold s0 in Hh. rewrite Hh in *. cbn [orb] in *. rewrite andb_true_r in *.
+        unfold write_step in *. rewrite Hw, Ha, Hh in *. cbn [orb] in *.
+        destruct (negb (queue_empty s0)) eqn:Eq.
+        + destruct HQ as [HI HB]. rewrite <- Hio0 in HI, HB, Hc.
+          destruct (poll_round_all (io s0) k HI HB Hk Hc) as (t' & Et & Hp). rewrite Et in *.
+          match goal with |- context [reads ?s1 r ?a ?b ?c] =>
+            pose proof (Same_reads s1 r a b c) as HR; destruct (reads s1 r a b c) as [[res s']|s'] end;
+            destruct HR as (_ & _ & _ & Hio); unfold Drained; rewrite Hio; exact Hp.
+        + assert (Hd0 : Drained s0) by (apply Hqe; auto; destruct (queue_empty s0); auto; discriminate).
+          match goal with |- context [reads s0 r ?a ?b ?c] =>
+            pose proof (Same_reads s0 r a b c) as HR; destruct (reads s0 r a b c) as [[res s']|s'] end;
+            destruct HR as (_ & _ & _ & Hio); unfold Drained in *; rewrite Hio; exact Hd0. }
+    destruct (round_body s r (negb finite)) as [[res s']|[s' w]]; [exact Hdr|].
+    destruct (negb (events_empty s') && negb w).
+    - cbn. eapply Out_drained; [apply Out_of_Same; [apply (Out_QI _ _ Hb)|apply Same_pop_ret]|exact Hdr].
+    - eapply Out_drained; [apply Out_poll_loop; apply (Out_QI _ _ Hb)|exact Hdr].
+  Qed.
+
+  Lemma dispose_loop_drained : forall fuel (s : pstate) sched s' rest, QI s -> Drained s ->
+    dispose_loop is_da fuel s sched = Some (s', rest) -> Drained s'.
+  Proof.
+    intros fuel s sched s' rest HQ Hd E. eapply Out_drained; [|exact Hd].
+    eapply Out_dispose_loop; eauto.
+  Qed.
+
+  (* If, in the first iteration of dispose's first poll, select reports the tty writable and the
+     tty takes the slice it is given (the peer is reading), the chunk in flight and the closing
+     sequence behind it are delivered - whatever else happens: signals (they were forgotten
+     before the wait), hang-up later on, timeouts, the answer arriving or not. *)
+  Theorem dispose_delivers_when_tty_accepts : forall fuel (s : pstate) r rest k s',
+    QI s -> (N.of_nat (total_len (chunks (tq (io s))) + length closing) <= usize_max)%N ->
+    r_eintr r = false -> r_wr_err r = false -> r_accept r = Some k -> (usize_max <= k)%N ->
+    hup s = false -> Forall (fun m => m <> MHup) (r_before r) ->
+    dispose is_da closing fuel s (r :: rest) = Some s' ->
+    tty (io s') = tty (io s) ++ front_slice (tq (io s)) ++ closing.
+  Proof.
+    intros fuel s r rest k s' HQ HB2 He Hw Ha Hk Hh0 Hnh E.
+    destruct (dispose_restores fuel s (r :: rest) s' HQ HB2 E) as (_ & _ & _ & Hst).
+    assert (Hd : Drained s'); [|unfold stream, Drained in *; now rewrite Hd, app_nil_r in Hst].
+    destruct HQ as [HI HB]. unfold dispose in E.
+    destruct (drop_ok (tq (io s)) HI) as (q1 & Ed & HI1 & Hf & Htl & _ & Hc & _).
+    rewrite Ed in E.
+    match type of E with context [dispose_loop is_da fuel ?sc _] => set (s1c := sc) in E end.
+    assert (Ht1 : total_len (chunks q1) <= total_len (chunks (tq (io s)))).
+    { rewrite Hc. unfold total_len. destruct (chunks (tq (io s))) as [|c r0]; cbn; [lia|].
+      rewrite !app_length. cbn. lia. }
+    assert (HQc : QI s1c).
+    { unfold QI, s1c. cbn. split; [now apply Inv_write|].
+      unfold write, total_len in *. cbn. rewrite push_last_concat, app_length. lia. }
+    destruct (dispose_loop is_da fuel s1c (r :: rest)) as [[s2 rest2]|] eqn:El; [|discriminate].
+    assert (Hd2 : Drained s2).
+    { destruct fuel as [|fuel]; [discriminate|]. cbn [dispose_loop] in El.
+      (* the first poll *)
+      assert (Hfirst : Drained (snd (fst (poll true s1c (r :: rest))))).
+      { unfold poll. apply first_round_drains with (k := k); auto;
+          [| |clear - Hh0 Hnh; cbn [upd_io];
+              match goal with |- hup (arrive_all ?x _) = false =>
+                assert (Hx : hup x = false) by exact Hh0; revert Hx; generalize x end;
+              unfold arrive_all; induction Hnh as [|m ms Hm Hms IH]; intros x Hx; cbn; auto;
+              apply IH; destruct m; cbn; try destruct (sig_closed x); cbn; auto; congruence].
+        - pose proof (Out_poll true s1c [] HQc) as Ho. unfold poll in Ho. cbn [poll_loop] in Ho.
+          clear Ho. unfold QI. cbn [upd_io io tq].
+          split; [apply Inv_flush, HQc|].
+          destruct (flush_cases (tq (io s1c))) as [[_ ->]|[_ ->]]; [|apply HQc].
+          destruct HQc as [_ Hb]. unfold total_len in *. cbn [chunks]. rewrite concat_app, app_length.
+          cbn [concat app length]. rewrite Nat.add_0_r. exact Hb.
+        - (* after the drop the queue holds one chunk; flush adds at most an empty one *)
+          cbn [upd_io io tq]. unfold s1c. cbn [io upd_io tq].
+          assert (Hone : tl (chunks (write q1 closing)) = []).
+          { unfold write. cbn [chunks]. destruct (chunks q1) as [|c [|c2 r0]]; cbn in *; auto. discriminate. }
+          destruct (flush_cases (write q1 closing)) as [[_ ->]|[_ ->]]; cbn [chunks]; [|now rewrite Hone].
+          destruct (chunks (write q1 closing)) as [|c t0]; cbn in *; auto. now rewrite Hone. }
+      pose proof (Out_poll true s1c (r :: rest) HQc) as Hop.
+      destruct (poll true s1c (r :: rest)) as [[res sp] restp]. cbn [fst snd] in *.
+      destruct res as [[e|]| | |]; try discriminate.
+      - destruct e as [| |t0].
+        + eapply dispose_loop_drained; [apply (Out_QI _ _ Hop)|exact Hfirst|exact El].
+        + eapply dispose_loop_drained; [apply (Out_QI _ _ Hop)|exact Hfirst|exact El].
+        + destruct (is_da t0).
+          * inversion El; subst. exact Hfirst.
+          * eapply dispose_loop_drained; [apply (Out_QI _ _ Hop)|exact Hfirst|exact El].
+      - inversion El; subst. exact Hfirst.
+      - inversion El; subst. exact Hfirst. }
+    inversion E as [E']. unfold Drained in *. destruct (hup s2); cbn; exact Hd2.
   Qed.
 
   (* if the queue is empty when dispose returns, the closing sequence has been delivered: it is
